@@ -773,7 +773,7 @@ package yang
 // never overwritten (the collision is reported on e), a grafted child is
 // fresh, points back at e, keeps its name and carries the given namespace and
 // prefix; oe's own tree -- slice backing arrays included -- is not written.
-//@ func (*Entry).merge props C04 C06 C07 C12
+//@ func (*Entry).merge props C04 C06 C07 C12 C05
 //@   requires e != nil && oe != nil && e.Dir != nil && built(oe) && !built(e)
 //@   requires forall x *Entry :: childOK(x) && builtOld(x) && (built(x) ==> x.Dir != e.Dir)
 //@   ensures  forall k string :: old(e.Dir[k]) != nil ==> e.Dir[k] == old(e.Dir[k])
